@@ -20,6 +20,7 @@ type pg struct {
 	allowBuilt bool
 	maxDepth   int
 	loopBound  int
+	noNestedUse bool // use() only as a statement of its own (never inside a larger expression)
 	iterM      int // > 0 while generating the body of `for _ in m` (Go leaves insertion during map iteration unspecified)
 	loopNest   int // current loop nesting (at most 2: keeps value growth bounded)
 }
@@ -272,7 +273,11 @@ func (g *pg) stmt(depth int, inLoop bool, ind string) string {
 		}
 		return pre + ind + "for " + init + "; " + cond + "; " + loop + " " + body + "\n"
 	case 4, 5:
-		it := g.pick([]string{"[1, 2, 3]", `"aé"`, `{"a": 1}`, `{"a": 1, "b": 2}`, "[]", `""`, "l", "s", "m", g.pick(g.keys), `[[1], "s", nil]`})
+		its := []string{"[1, 2, 3]", `"aé"`, `{"a": 1}`, "[]", `""`, "l", "s", g.pick(g.keys), `[[1], "s", nil]`}
+		if !g.noNestedUse { // (C14 compares two runs of the implementation: no order-dependent iteration there)
+			its = append(its, `{"a": 1, "b": 2}`, "m")
+		}
+		it := g.pick(its)
 		g.loopNest++
 		if it == "m" {
 			g.iterM++
